@@ -382,6 +382,10 @@ class ExcelInPython:
             except:
                 return '#NUM!'
     
+        if isinstance(year, float) and year.is_integer():
+            # a whole number that was computed as a double (e.g. 4048/2)
+            year = int(year)
+
         match year:
             case year if 0 <= year <= 1899:
                 year += 1900
